@@ -521,6 +521,15 @@ def gen_c12_pair(r):
     elif prior == 'stale':
         for _ in range(r.randint(1, 3)):
             muts.append(GT.mutate(r, a, files, written, r.choice(['content-same-size', 'content-other-size', 'delete', 'stray', 'stray-hidden', 'mtime'])))
+    if r.random() < 0.35:
+        # several directories that the walk has to prune side by side (hidden ones, with ordinary files inside)
+        dd = r.choice([d for d in a.meta['dirs'] if t.lookup(d) is not None and t.nodes[t.lookup(d)]['k'] == 'd'])
+        for hn in r.sample(['.git', '.github', '.cache', '.hg', '.svn'], r.randint(2, 4)):
+            q = (dd + '/' if dd else '') + hn
+            if t.lookup(q) is None:
+                t.add_dir(q)
+                t.add_file(q + '/' + r.choice(['HEAD', 'config', 'x']), b'inside a hidden directory\n')
+        muts.append('hidden-directories-in:' + dd)
     a.meta['mutations'] = muts
     a.meta['prior'] = prior
     a.hash_names = set(GT.GOOD_HASHES)
